@@ -352,7 +352,15 @@ def scripted_window(kind, p):
         a, b = bracket
         if f(a) * f(b) > 0:
             raise ValueError("f(a) and f(b) must have different signs")      # what brentq does
-        return SimpleNamespace(root=a + fr * (b - a), converged=True)
+        lo, hi, flo = a, b, f(a)
+        for _ in range(50):                       # same operation sequence as Driver/WindowF.bisect
+            mid = lo + 0.5 * (hi - lo)
+            fm = f(mid)
+            if flo * fm <= 0.0:
+                hi = mid
+            else:
+                lo, flo = mid, fm
+        return SimpleNamespace(root=lo + 0.5 * (hi - lo), converged=True)
     saved = H.root_scalar
     H.root_scalar = stub_root
     try:
